@@ -35,28 +35,28 @@ example (c : Cfg) (k : Nat) (s : PState) :
 
 /-! the running example: the diamond `0 → 1 → 3`, `0 → 2 → 3` (`Proofs/LiveExample.lean`), limit 2,
     errors collected, `PollNextN(1)`, a `*_control` API, not coop -/
-def exX_P_P : MonCtx :=
+def exX_P_P_P : MonCtx :=
   { c := exC_G (some 2), decls := [], userD := exD_G, rev := false, control := true,
     interruptible := false, coop := false }
 
 /-- the monitor before the first event -/
-def exT0_P_P : TrackSt := { s := init exX_P_P.c }
+def exT0_P_P_P : TrackSt := { s := init exX_P_P_P.c }
 
 /-- the events before the return: `0`; then `2` and `1` concurrently; `1` ends, the interrupt
     signal is sent, `2` fails -/
-def exTrace12_P_P : List Ev :=
+def exTrace12_P_P_P : List Ev :=
   [.handout 0, .invoke 0, .q, .fin 0 true, .handout 2, .invoke 2, .handout 1, .invoke 1, .q,
    .fin 1 true, .intr, .fin 2 false]
 
 /-- an accepted trace: … and the call returns `Interrupted`, `3` not processed, `Break` -/
-def exTrace_P_P : List Ev := exTrace12_P_P ++ [.retOutcome false [0, 2, 1] [3] [2] "break"]
+def exTrace_P_P_P : List Ev := exTrace12_P_P_P ++ [.retOutcome false [0, 2, 1] [3] [2] "break"]
 
 /- non-vacuity of 1.: `advanceUntil` really moves (it polls the scheduler until `0` is handed out),
    and it reports failure when the predicate cannot be reached -/
 set_option maxRecDepth 100000 in
-example : (advanceUntil exX_P_P.c (fun s => decide (0 < s.handedOut.length)) (trackFuel exX_P_P.c) (init exX_P_P.c)).1.handedOut = [0] ∧
-    (advanceUntil exX_P_P.c (fun s => decide (0 < s.handedOut.length)) (trackFuel exX_P_P.c) (init exX_P_P.c)).2 = true ∧
-    (advanceUntil exX_P_P.c (fun s => decide (3 ∈ s.invoked)) (trackFuel exX_P_P.c) (init exX_P_P.c)).2 = false := by
+example : (advanceUntil exX_P_P_P.c (fun s => decide (0 < s.handedOut.length)) (trackFuel exX_P_P_P.c) (init exX_P_P_P.c)).1.handedOut = [0] ∧
+    (advanceUntil exX_P_P_P.c (fun s => decide (0 < s.handedOut.length)) (trackFuel exX_P_P_P.c) (init exX_P_P_P.c)).2 = true ∧
+    (advanceUntil exX_P_P_P.c (fun s => decide (3 ∈ s.invoked)) (trackFuel exX_P_P_P.c) (init exX_P_P_P.c)).2 = false := by
   decide
 
 /-! ### the state component of `trackFut`, event by event -/
@@ -248,19 +248,19 @@ theorem trackFut_sound_shape {x : MonCtx} {t : TrackSt} {e : Ev} (hcoop : x.coop
    only), a completion and the interrupt (exactly that external action); and a rejected event:
    `1` cannot end before it was handed out, the note is not `ok` -/
 set_option maxRecDepth 100000 in
-example : ∃ as, run exX_P_P.c exT0_P_P.s as = some (trackFut exX_P_P exT0_P_P (.handout 0)).1.s ∧
+example : ∃ as, run exX_P_P_P.c exT0_P_P_P.s as = some (trackFut exX_P_P_P exT0_P_P_P (.handout 0)).1.s ∧
     as.filter Action.isExternal = [] :=
-  trackFut_sound (x := exX_P_P) (e := .handout 0) rfl (by decide)
+  trackFut_sound (x := exX_P_P_P) (e := .handout 0) rfl (by decide)
 set_option maxRecDepth 100000 in
-example : ∃ as, run exX_P_P.c (trackRun exX_P_P exT0_P_P (exTrace12_P_P.take 3)).1.s as =
-      some (trackFut exX_P_P (trackRun exX_P_P exT0_P_P (exTrace12_P_P.take 3)).1 (.fin 0 true)).1.s ∧
+example : ∃ as, run exX_P_P_P.c (trackRun exX_P_P_P exT0_P_P_P (exTrace12_P_P_P.take 3)).1.s as =
+      some (trackFut exX_P_P_P (trackRun exX_P_P_P exT0_P_P_P (exTrace12_P_P_P.take 3)).1 (.fin 0 true)).1.s ∧
     as.filter Action.isExternal = [.finish 0 true] :=
-  trackFut_sound (x := exX_P_P) (e := .fin 0 true) rfl (by decide)
-example : ∃ as, run exX_P_P.c exT0_P_P.s as = some (trackFut exX_P_P exT0_P_P .intr).1.s ∧
+  trackFut_sound (x := exX_P_P_P) (e := .fin 0 true) rfl (by decide)
+example : ∃ as, run exX_P_P_P.c exT0_P_P_P.s as = some (trackFut exX_P_P_P exT0_P_P_P .intr).1.s ∧
     as.filter Action.isExternal = [.interrupt] :=
-  trackFut_sound (x := exX_P_P) (e := .intr) rfl (by decide)
+  trackFut_sound (x := exX_P_P_P) (e := .intr) rfl (by decide)
 set_option maxRecDepth 100000 in
-example : ¬ ∀ n ∈ (trackFut exX_P_P exT0_P_P (.fin 1 true)).2, n.ok = true := by decide
+example : ¬ ∀ n ∈ (trackFut exX_P_P_P exT0_P_P_P (.fin 1 true)).2, n.ok = true := by decide
 /- `hcoop` is needed -/
 example : ∃ (x : MonCtx) (t : TrackSt) (e : Ev), x.coop = true ∧ Reachable x.c t.s ∧
     (∀ n ∈ (trackFut x t e).2, n.ok = true) ∧ ¬ ∃ as, run x.c t.s as = some (trackFut x t e).1.s :=
@@ -322,18 +322,18 @@ theorem track_sound_init {x : MonCtx} (hcoop : x.coop = false) {evs : List Ev}
    accepted; the run the theorem yields has the external actions `finish 0 ok, finish 1 ok, interrupt,
    finish 2 err`; dropping an event (`handout 2`) makes the monitor reject -/
 set_option maxRecDepth 100000 in
-theorem exTrace12_ok_P_P : ∀ n ∈ (trackRun exX_P_P exT0_P_P exTrace12_P_P).2, n.ok = true := by decide
+theorem exTrace12_ok_P_P_P : ∀ n ∈ (trackRun exX_P_P_P exT0_P_P_P exTrace12_P_P_P).2, n.ok = true := by decide
 set_option maxRecDepth 100000 in
-theorem exTrace12_result_P_P :
-    (settle exX_P_P.c (trackRun exX_P_P exT0_P_P exTrace12_P_P).1.s).result = some (.outcome false [0, 2, 1] [3] [2]) := by
+theorem exTrace12_result_P_P_P :
+    (settle exX_P_P_P.c (trackRun exX_P_P_P exT0_P_P_P exTrace12_P_P_P).1.s).result = some (.outcome false [0, 2, 1] [3] [2]) := by
   decide
-example : ∃ as, run exX_P_P.c (init exX_P_P.c) as = some (trackRun exX_P_P exT0_P_P exTrace12_P_P).1.s ∧
+example : ∃ as, run exX_P_P_P.c (init exX_P_P_P.c) as = some (trackRun exX_P_P_P exT0_P_P_P exTrace12_P_P_P).1.s ∧
     as.filter Action.isExternal = [.finish 0 true, .finish 1 true, .interrupt, .finish 2 false] :=
-  track_sound (x := exX_P_P) rfl exTrace12_ok_P_P
-example : Reachable exX_P_P.c (trackRun exX_P_P exT0_P_P exTrace12_P_P).1.s :=
-  track_reachable (x := exX_P_P) rfl exTrace12_ok_P_P .init
+  track_sound (x := exX_P_P_P) rfl exTrace12_ok_P_P_P
+example : Reachable exX_P_P_P.c (trackRun exX_P_P_P exT0_P_P_P exTrace12_P_P_P).1.s :=
+  track_reachable (x := exX_P_P_P) rfl exTrace12_ok_P_P_P .init
 set_option maxRecDepth 100000 in
-example : ¬ ∀ n ∈ (trackRun exX_P_P exT0_P_P (exTrace12_P_P.eraseIdx 4)).2, n.ok = true := by decide
+example : ¬ ∀ n ∈ (trackRun exX_P_P_P exT0_P_P_P (exTrace12_P_P_P.eraseIdx 4)).2, n.ok = true := by decide
 
 /-! ### 4. what an accepted `q` / `ret` event means -/
 
@@ -478,47 +478,47 @@ theorem track_ret_quiescent {x : MonCtx} {t : TrackSt} {fnd : Bool} {p np errs :
 
 /- non-vacuity of 4.: the second `q` of the example trace (after 8 events: `2` and `1` in flight)
    and its final `ret` (after 12 events) -/
-theorem exT8_reach_P_P : Reachable exX_P_P.c (trackRun exX_P_P exT0_P_P (exTrace12_P_P.take 8)).1.s :=
-  track_reachable (x := exX_P_P) rfl (by set_option maxRecDepth 100000 in decide) .init
+theorem exT8_reach_P_P_P : Reachable exX_P_P_P.c (trackRun exX_P_P_P exT0_P_P_P (exTrace12_P_P_P.take 8)).1.s :=
+  track_reachable (x := exX_P_P_P) rfl (by set_option maxRecDepth 100000 in decide) .init
 set_option maxRecDepth 100000 in
-example : (trackFut exX_P_P (trackRun exX_P_P exT0_P_P (exTrace12_P_P.take 8)).1 .q).1.s.invoked = [0, 2, 1] ∧
-    Quiescent exX_P_P.c (trackFut exX_P_P (trackRun exX_P_P exT0_P_P (exTrace12_P_P.take 8)).1 .q).1.s :=
-  have h := track_q_lists (x := exX_P_P) (exC_good_G _) exT8_reach_P_P (by decide)
+example : (trackFut exX_P_P_P (trackRun exX_P_P_P exT0_P_P_P (exTrace12_P_P_P.take 8)).1 .q).1.s.invoked = [0, 2, 1] ∧
+    Quiescent exX_P_P_P.c (trackFut exX_P_P_P (trackRun exX_P_P_P exT0_P_P_P (exTrace12_P_P_P.take 8)).1 .q).1.s :=
+  have h := track_q_lists (x := exX_P_P_P) (exC_good_G _) exT8_reach_P_P_P (by decide)
   ⟨h.2.2.2.2.1.trans (by decide), h.2.1⟩
 set_option maxRecDepth 100000 in
-example : ∃ errs', (trackFut exX_P_P (trackRun exX_P_P exT0_P_P exTrace12_P_P).1
+example : ∃ errs', (trackFut exX_P_P_P (trackRun exX_P_P_P exT0_P_P_P exTrace12_P_P_P).1
       (.retOutcome false [0, 2, 1] [3] [2] "break")).1.s.result = some (.outcome false [0, 2, 1] [3] errs') ∧
     errs'.mergeSort (· ≤ ·) = [2].mergeSort (· ≤ ·) ∧ errs'.Perm [2] ∧
-    "break" = flowText (.outcome false [0, 2, 1] [3] errs') exX_P_P.control :=
-  track_ret_outcome (x := exX_P_P) (trackFut_retOutcome_accepts (x := exX_P_P) (errs := [2]) exTrace12_result_P_P rfl)
+    "break" = flowText (.outcome false [0, 2, 1] [3] errs') exX_P_P_P.control :=
+  track_ret_outcome (x := exX_P_P_P) (trackFut_retOutcome_accepts (x := exX_P_P_P) (errs := [2]) exTrace12_result_P_P_P rfl)
 /- a `q` after the call has returned, and a wrong outcome, are rejected -/
 set_option maxRecDepth 100000 in
-example : ¬ ∀ n ∈ (trackFut exX_P_P (trackRun exX_P_P exT0_P_P exTrace12_P_P).1 .q).2, n.ok = true := by decide
+example : ¬ ∀ n ∈ (trackFut exX_P_P_P (trackRun exX_P_P_P exT0_P_P_P exTrace12_P_P_P).1 .q).2, n.ok = true := by decide
 set_option maxRecDepth 100000 in
-example : ¬ ∀ n ∈ (trackFut exX_P_P (trackRun exX_P_P exT0_P_P exTrace12_P_P).1
+example : ¬ ∀ n ∈ (trackFut exX_P_P_P (trackRun exX_P_P_P exT0_P_P_P exTrace12_P_P_P).1
     (.retOutcome true [0, 2, 1, 3] [] [] "cont")).2, n.ok = true := by decide
 /- the whole example trace is accepted, and is a run of the model from `init` to the returned state -/
-theorem exTrace_ok_P_P : ∀ n ∈ (trackRun exX_P_P exT0_P_P exTrace_P_P).2, n.ok = true := by
-  rw [exTrace_P_P, trackRun_append, trackRun_singleton]
+theorem exTrace_ok_P_P_P : ∀ n ∈ (trackRun exX_P_P_P exT0_P_P_P exTrace_P_P_P).2, n.ok = true := by
+  rw [exTrace_P_P_P, trackRun_append, trackRun_singleton]
   intro n hn
   rcases List.mem_append.mp hn with hn | hn
-  · exact exTrace12_ok_P_P n hn
-  · exact trackFut_retOutcome_accepts (x := exX_P_P) (errs := [2]) exTrace12_result_P_P rfl n hn
-example : ∃ as, run exX_P_P.c (init exX_P_P.c) as = some (trackRun exX_P_P exT0_P_P exTrace_P_P).1.s ∧
+  · exact exTrace12_ok_P_P_P n hn
+  · exact trackFut_retOutcome_accepts (x := exX_P_P_P) (errs := [2]) exTrace12_result_P_P_P rfl n hn
+example : ∃ as, run exX_P_P_P.c (init exX_P_P_P.c) as = some (trackRun exX_P_P_P exT0_P_P_P exTrace_P_P_P).1.s ∧
     as.filter Action.isExternal = [.finish 0 true, .finish 1 true, .interrupt, .finish 2 false] :=
-  track_sound (x := exX_P_P) rfl exTrace_ok_P_P
-example : (trackRun exX_P_P exT0_P_P exTrace_P_P).1.s.result = some (.outcome false [0, 2, 1] [3] [2]) := by
-  rw [exTrace_P_P, trackRun_append, trackRun_singleton]
-  exact exTrace12_result_P_P
+  track_sound (x := exX_P_P_P) rfl exTrace_ok_P_P_P
+example : (trackRun exX_P_P_P exT0_P_P_P exTrace_P_P_P).1.s.result = some (.outcome false [0, 2, 1] [3] [2]) := by
+  rw [exTrace_P_P_P, trackRun_append, trackRun_singleton]
+  exact exTrace12_result_P_P_P
 /- `track_retErr`: `try_fold` on the chain-free graph of two functions, `1` fails -/
-def exXerr_P_P : MonCtx :=
+def exXerr_P_P_P : MonCtx :=
   { c := { coopC_P with sequential := true, errMode := .shortCircuit }, decls := [], userD := ⟨2, []⟩,
     rev := false, control := false, interruptible := false, coop := false }
-def exTraceErr_P_P : List Ev := [.handout 1, .invoke 1, .q, .fin 1 false]
+def exTraceErr_P_P_P : List Ev := [.handout 1, .invoke 1, .q, .fin 1 false]
 set_option maxRecDepth 100000 in
-example : (trackFut exXerr_P_P (trackRun exXerr_P_P { s := init exXerr_P_P.c } exTraceErr_P_P).1 (.retErr 1)).1.s.result
+example : (trackFut exXerr_P_P_P (trackRun exXerr_P_P_P { s := init exXerr_P_P_P.c } exTraceErr_P_P_P).1 (.retErr 1)).1.s.result
     = some (.err 1) :=
-  (track_retErr (x := exXerr_P_P) (by decide)).1
+  (track_retErr (x := exXerr_P_P_P) (by decide)).1
 
 /-! ### 5. the hand-out event -/
 
@@ -567,13 +567,13 @@ theorem track_handout {x : MonCtx} {t : TrackSt} {f : Nat} (hcoop : x.coop = fal
 /- non-vacuity of 5.: the hand-outs `0` (from the initial state) and `1` (after 6 events) of the
    example trace; the model would hand out `2` first, so `handout 1` in its place is rejected -/
 set_option maxRecDepth 100000 in
-example : (trackFut exX_P_P exT0_P_P (.handout 0)).1.s.handedOut = [] ++ [0] :=
-  (track_handout (x := exX_P_P) rfl (by decide)).2.2.1
+example : (trackFut exX_P_P_P exT0_P_P_P (.handout 0)).1.s.handedOut = [] ++ [0] :=
+  (track_handout (x := exX_P_P_P) rfl (by decide)).2.2.1
 set_option maxRecDepth 100000 in
-example : (trackFut exX_P_P (trackRun exX_P_P exT0_P_P (exTrace12_P_P.take 6)).1 (.handout 1)).1.s.handedOut = [0, 2, 1] :=
-  (track_handout (x := exX_P_P) rfl (by decide)).2.2.1.trans (by decide)
+example : (trackFut exX_P_P_P (trackRun exX_P_P_P exT0_P_P_P (exTrace12_P_P_P.take 6)).1 (.handout 1)).1.s.handedOut = [0, 2, 1] :=
+  (track_handout (x := exX_P_P_P) rfl (by decide)).2.2.1.trans (by decide)
 set_option maxRecDepth 100000 in
-example : ¬ ∀ n ∈ (trackFut exX_P_P (trackRun exX_P_P exT0_P_P (exTrace12_P_P.take 4)).1 (.handout 1)).2, n.ok = true := by
+example : ¬ ∀ n ∈ (trackFut exX_P_P_P (trackRun exX_P_P_P exT0_P_P_P (exTrace12_P_P_P.take 4)).1 (.handout 1)).2, n.ok = true := by
   decide
 
 end FG
